@@ -404,6 +404,27 @@ _on_refactoring('C02', 'hb5+wrong-invert', 'HB-5', 'logic_sim.py', 'if op == sim
 _on_refactoring('C02', 'hb5+wrong-pair', 'HB-5', 'logic_sim.py', 'elif op == sim.OA22 or op == sim.OAI22:', 'elif op == sim.OA22 or op == sim.OAI211:', 'C02.comp')
 _on_refactoring('C02', 'hb5+view-alias', 'HB-5', 'logic_sim.py', 'logic.bp4v_and(scratch, self.c[i1], self.c[i2])', 'logic.bp4v_and(scratch, self.c[i1], scratch)', ['C02.alias', 'C02.bool'])
 
+# the evaluated stimulus rule (Engine M with array stand-ins): breaks of the refactored kernel (HX-5) and of the vector code
+_on_refactoring('C03', 'hx5+second-swapped', 'HX-5', 'wave_sim.py', 'second = TMAX if final else ttime', 'second = ttime if final else TMAX', 'C03.stimulus')
+_on_refactoring('C03', 'hx5+first-polarity', 'HX-5', 'wave_sim.py', 'first = ttime if final else TMAX', 'first = TMAX if final else ttime', 'C03.stimulus')
+_on_refactoring('C06', 'hx5+guard-lost', 'HX-5', 'wave_sim.py', 'if c_loc < 0 or x >= c.shape[-1]: return\n    final', 'if x >= c.shape[-1]: return\n    final', 'C06.stimulus')
+_on_refactoring('C03', 'hx5+initial-row', 'HX-5', 'wave_sim.py', 'initial = int(s[0, y, x] >= 0.5)', 'initial = int(s[1, y, x] >= 0.5)', 'C03.stimulus')
+mut('C03', 'cpu-stimulus-where-form-wrong', 'wave_sim.py', 'self.c[self.pippi_c_locs+1] = np.choose(cond, [TMAX, TMAX, sins[1], TMAX])', 'self.c[self.pippi_c_locs+1] = np.where(cond == 2, sins[1], np.where(cond == 1, TMIN, TMAX))', 'C03.stimulus')
+mut('C03', 'cpu-stimulus-rows-of-all-positions', 'wave_sim.py', 'sins = self.s[:, self.pippi_s_locs]', 'sins = self.s[:, :len(self.pippi_s_locs)]', 'C03.stimulus')
+mut('C06', 'gpu-launch-grid-over-ports-only', 'wave_sim.py', '        grid_dim = self._grid_dim(self.sims, self.s_len)\n        wave_assign_gpu', '        grid_dim = self._grid_dim(self.sims, len(self.circuit.io_nodes))\n        wave_assign_gpu', 'C06.stimulus')
+neutral('C03', 'n-cpu-stimulus-where-form', 'wave_sim.py', 'self.c[self.pippi_c_locs+1] = np.choose(cond, [TMAX, TMAX, sins[1], TMAX])', 'self.c[self.pippi_c_locs+1] = np.where(cond == 2, sins[1], TMAX)')
+neutral('C03', 'n-cpu-stimulus-loop-form', 'wave_sim.py', """        sins = self.s[:, self.pippi_s_locs]
+        cond = (sins[2] != 0) + 2*(sins[0] != 0)  # choices order: 0 R F 1
+        self.c[self.pippi_c_locs] = np.choose(cond, [TMAX, sins[1], TMIN, TMIN])
+        self.c[self.pippi_c_locs+1] = np.choose(cond, [TMAX, TMAX, sins[1], TMAX])
+        self.c[self.pippi_c_locs+2] = TMAX
+""", """        for s_loc, c_loc in zip(self.pippi_s_locs, self.pippi_c_locs):
+            for lane in range(self.sims):
+                initial, ttime, final = self.s[0, s_loc, lane] != 0, self.s[1, s_loc, lane], self.s[2, s_loc, lane] != 0
+                wave = ([TMIN] if initial else []) + ([ttime] if initial != final else []) + [TMAX, TMAX, TMAX]
+                for k in range(3):
+                    self.c[c_loc + k, lane] = wave[k]
+""")
 mut('C10', 'substitute-prunes-early', 'circuit.py', "                if l.driver in node_map:\n                    unused.append(node_map[l.driver])\n                continue", "                if l.driver in node_map:\n                    self.remove_dangling_nodes(node_map[l.driver])\n                continue", 'C10.function')   # F16
 
 mut('C11', 'onebit-bus-bare-name', 'verilog.py', "                    if s not in c.forks and s in sig_decls and len(sig_decls[s].names) == 1:\n                        s = sig_decls[s].names[0]  # a 1-bit bus read by its bare name\n", "", 'C11.netlist')   # F17
